@@ -666,13 +666,13 @@ Definition boundaries_ok (f : bytes) (d : vdoc) : bool :=
 
 (* 7.3.8.2, Table 5: /Filter is a name or an array of names; /DecodeParms belongs to it - for a
    single name a dictionary, for an array an array with exactly one entry, dictionary or null, per
-   filter; it may be absent (all parameters default), but not stand alone *)
+   filter; it may be absent (all parameters default) *)
 Definition E_FILTERS := 35.
 Definition is_name (o : obj) : bool := match o with OName _ => true | _ => false end.
 Definition parm_entry_ok (o : obj) : bool := match o with ODict _ | ONull => true | _ => false end.
 Definition filters_ok (d : dict) : bool :=
   match dget n_Filter d, dget n_DecodeParms d with
-  | None, None => true
+  | None, _ => true                                    (* parameters of no filter: of no effect *)
   | Some (OName _), None => true
   | Some (OName _), Some (ODict _) => true
   | Some (OArr names), None => forallb is_name names
